@@ -325,7 +325,48 @@ fn main() {
     let budget = Budget::new(Duration::from_secs(run.tier.pick(50, 1700)));
     let thorough = run.tier == Tier::Thorough;
     let all_seeds = seeds("claimed-app-id");
-    let parent = run.fan_out(n_workers());
+    // A worker killed by an input (allocation failure aborts the process, it does not unwind) has recorded the input's
+    // coordinates in its progress slot: the parent reports it and starts a replacement that resumes behind it.
+    let deaths: std::sync::Mutex<std::collections::HashMap<usize, u32>> = std::sync::Mutex::new(std::collections::HashMap::new());
+    let on_dead = |shard: usize, pos: &str| -> Option<Vec<(String, String)>> {
+        let (si, mi, m2c) = ProgressSlot::read(pos)?;
+        if si == u32::MAX {
+            return None;
+        }
+        let n = {
+            let mut d = deaths.lock().unwrap();
+            let e = d.entry(shard).or_insert(0);
+            *e += 1;
+            *e
+        };
+        if n > 6 {
+            // enough witnesses from this worker: let its replacement skip the rest of the mutation sweep
+            run.cap_hit(format!("worker {shard} was killed by {n} different inputs; the rest of its share of the mutation sweep was skipped"));
+            return Some(vec![("VH_C05_RESUME".to_string(), format!("{},0,0", u32::MAX - 1))]);
+        }
+        let seed = all_seeds.get(si as usize)?;
+        let firsts: Vec<(String, Vec<u8>)> = std::iter::once(("unmodified".to_string(), seed.bytes.clone())).chain(mutations(&seed.bytes, true)).collect();
+        let (mname, bytes) = firsts.get(mi as usize)?.clone();
+        let (name, input) = if m2c == 0 {
+            (mname, bytes)
+        } else {
+            let (m2, b2) = mutations(&bytes, false).into_iter().nth(m2c as usize - 1)?;
+            (format!("{mname}+{m2}"), b2)
+        };
+        let entry = match seed.kind {
+            Kind::Frame => "parse_protocol_message",
+            Kind::DhtMsg => "handle_dht_message",
+            Kind::Envelope => "parse_request_envelope",
+            Kind::CoreReq => "DhtCoreEngine::handle_request",
+            Kind::Record => "DhtRecord::deserialize",
+        };
+        run.violation_lazy("C05.alloc", feats(&[("entry", entry.into()), ("shape", "process-aborted-while-handling-input".into()), ("seed_kind", format!("{:?}", seed.kind))]), || {
+            (json!({"seed": seed.name, "mutation": name, "input_len": input.len(), "input_hex": hex::encode(&input[..input.len().min(600)]), "worker": shard, "detail": "the worker process died (abort: allocation failure or stack overflow) while the real code handled this input"}),
+             format!("{entry}: the process aborted while handling seed {} with mutation {name} ({} bytes)", seed.name, input.len()))
+        });
+        Some(vec![("VH_C05_RESUME".to_string(), format!("{si},{mi},{m2c}"))])
+    };
+    let parent = run.fan_out_resumable(n_workers(), &on_dead);
     let inputs_n = AtomicU64::new(0);
     let mut samples: Vec<Value> = Vec::new();
     if parent.is_none() {
@@ -336,9 +377,15 @@ fn main() {
             let engine = DhtCoreEngine::new(NodeId::from_bytes([0x55; 32])).unwrap();
             let env = Env5 { net, engine };
             let mut idx = 0usize;
+            let slot = run.progress_path().and_then(|p| ProgressSlot::create(&p));
+            let resume: Option<(u32, u32, u32)> = std::env::var("VH_C05_RESUME").ok().and_then(|v| {
+                let p: Vec<u32> = v.split(',').filter_map(|x| x.parse().ok()).collect();
+                (p.len() == 3).then(|| (p[0], p[1], p[2]))
+            });
+            let skip = |si: usize, mi: usize, m2c: usize| resume.map(|r| (si as u32, mi as u32, m2c as u32) <= r).unwrap_or(false);
             // ---- family 1: seeds and all 1-site mutations
             let only = std::env::var("VH_C05_ONLY").ok();
-            for seed in &all_seeds {
+            for (si, seed) in all_seeds.iter().enumerate() {
                 if let Some(o) = &only {
                     if !seed.name.starts_with(o.as_str()) {
                         continue;
@@ -356,14 +403,22 @@ fn main() {
                     if budget.exceeded() {
                         break;
                     }
-                    judge_input(&run, &distinct, &env, seed, &mname, &bytes, true).await;
-                    inputs_n.fetch_add(1, Ordering::Relaxed);
+                    if !skip(si, mi, 0) {
+                        if let Some(sl) = &slot {
+                            sl.set(si as u32, mi as u32, 0);
+                        }
+                        judge_input(&run, &distinct, &env, seed, &mname, &bytes, true).await;
+                        inputs_n.fetch_add(1, Ordering::Relaxed);
+                    }
                     // ---- d = 2 on small seeds (thorough): a second site-mutation on top
                     if mi > 0 && bytes.len() <= 200 && ((thorough && seed.bytes.len() <= 200) || (!thorough && seed.bytes.len() <= 96 && mi % 3 == 0)) {
                         let trace = std::env::var("VH_C05_TRACE").is_ok();
-                        for (m2, b2) in mutations(&bytes, false).into_iter() {
-                            if b2.len() > 200 {
+                        for (m2i, (m2, b2)) in mutations(&bytes, false).into_iter().enumerate() {
+                            if b2.len() > 200 || skip(si, mi, m2i + 1) {
                                 continue;
+                            }
+                            if let Some(sl) = &slot {
+                                sl.set(si as u32, mi as u32, m2i as u32 + 1);
                             }
                             if trace && inputs_n.load(Ordering::Relaxed) % 5000 == 0 {
                                 eprintln!("T {} live_bytes_on_thread={} after {} inputs; last {}+{}", seed.name, alloc_mark(), inputs_n.load(Ordering::Relaxed), mname, m2);
@@ -373,6 +428,9 @@ fn main() {
                         }
                     }
                 }
+            }
+            if let Some(sl) = &slot {
+                sl.set(u32::MAX, 0, 0);
             }
             // ---- family 2: size ladder for DHT messages (value filler inside a well-formed PUT, and raw filler)
             if run.mine(0) {
